@@ -1,4 +1,4 @@
 SPECIFICATION Spec
-CONSTANTS Readers = {1} Writers = {2, 3} Rounds = 1 Grace = 2 MaxT = 3 AllowShutdown = TRUE AllowParentCancel = TRUE GraceFromAdmission = FALSE ErrButAdmitted = FALSE DeleteOnEveryRelease = FALSE AutoReleaseOnCtxEnd = FALSE CancelAfterDone = FALSE
+CONSTANTS Readers = {1} Writers = {2, 3} Rounds = 1 Grace = 2 MaxT = 3 AllowShutdown = TRUE AllowParentCancel = TRUE GraceFromAdmission = FALSE ErrButAdmitted = FALSE DeleteOnEveryRelease = FALSE AutoReleaseOnCtxEnd = FALSE CancelAfterDone = FALSE NoCtxOnSend = FALSE
 INVARIANTS Contract WgInv WriterExcl
 CHECK_DEADLOCK FALSE
